@@ -353,6 +353,10 @@ def get_model_parser(top_rule, comments_model, **kwargs):
             # classes replaced (see _replace_user_attr_methods)
             self._user_attr_methods_replaced = False
 
+            # User class instances whose attributes are collected in
+            # _tx_obj_attrs of their class until they get initialized
+            self._user_class_allocated = []
+
         def clone(self):
             """
             Responsibility: create a clone in order to parse a separate file.
@@ -444,6 +448,7 @@ def get_model_parser(top_rule, comments_model, **kwargs):
 
                 # Used to keep track of user class instances
                 self._user_class_inst = []
+                self._user_class_allocated = []
 
                 self._replace_user_attr_methods()
 
@@ -461,6 +466,7 @@ def get_model_parser(top_rule, comments_model, **kwargs):
             except:  # noqa
                 # Restore of user classes replaced attr methods
                 self._restore_user_attr_methods()
+                self._discard_user_obj_attrs()
                 raise
 
             finally:
@@ -555,6 +561,17 @@ def get_model_parser(top_rule, comments_model, **kwargs):
                                 else:
                                     delattr(user_class, real_name)
                                 delattr(user_class, cached_name)
+
+        def _discard_user_obj_attrs(self):
+            """
+            Forget the attributes collected for user class instances that
+            are not initialized (yet). Called when model loading fails:
+            these instances will never be initialized and the collected
+            attributes would keep the partial model alive.
+            """
+            for obj in self._user_class_allocated:
+                type(obj)._tx_obj_attrs.pop(id(obj), None)
+            self._user_class_allocated = []
 
     return TextXModelParser(**kwargs)
 
@@ -693,6 +710,7 @@ def parse_tree_to_objgraph(
                 # So that nested object get correct reference
                 inst = user_class.__new__(user_class)
                 user_class._tx_obj_attrs[id(inst)] = {}
+                parser._user_class_allocated.append(inst)
                 is_user = True
 
             else:
@@ -1137,7 +1155,15 @@ def _end_model_construction(model):
                 # constructor parameters
                 e.args += (f"for class {obj.__class__.__name__}",)
                 the_parser.dprint(traceback.print_exc())
+                the_parser._discard_user_obj_attrs()
                 raise e
+
+            except:  # noqa
+                # Instances not initialized so far will never be
+                the_parser._discard_user_obj_attrs()
+                raise
+
+        the_parser._user_class_allocated = []
 
 
 def _remove_all_affected_models_in_construction(model):
@@ -1170,6 +1196,7 @@ def _restore_user_attr_methods_of_models(models):
     parsers = [m._tx_parser for m in models if hasattr(m, "_tx_parser")]
     for a_parser in parsers:
         a_parser._restore_user_attr_methods()
+        a_parser._discard_user_obj_attrs()
 
 
 class ReferenceResolver:
